@@ -180,8 +180,48 @@ def json_mutants(r, tr, tier):
     return out
 
 
+def deep_nesting_mutants(r, tabs):
+    """Semantically extreme but well-formed streams: more nested pushes on one
+    channel than its stack holds (MAX_CHAN_STACK = 512).  The emulator must
+    refuse with its diagnostic (exit 1), never write past the stack."""
+    import struct
+    out = []
+    pairs = L.model_pairs(tabs)
+    for depth in (511, 512, 513, 600, 1100):
+        # mark stack channel
+        tr = L.seed_trace(r, tabs, "one")
+        s, evs = tr.streams[0]
+        s.meta["ovni"]["mark"] = {"1": {"title": "deep", "chan_type": "stack"}}
+        clk = evs[0].clock
+        ins = []
+        for k in range(depth):
+            clk += 1
+            ins.append(L.Ev(clk, "OM[", struct.pack("<qi", 1 + k % 7, 1)))
+        for e in evs[1:]:
+            e.clock += depth + 5
+        evs[1:1] = ins
+        out.append(Mut("deep", f"{depth} nested OM[ on a stack mark", tr, stream_level=False))
+    for m in ("nosv", "nanos6", "openmp", "mpi"):
+        if m not in pairs:
+            continue
+        for depth in (513, 700):
+            tr = L.seed_trace(r, tabs, "one")
+            s, evs = tr.streams[0]
+            s.meta["ovni"]["require"][m] = tabs[m]["version"]
+            clk = evs[0].clock
+            ins = []
+            for k in range(depth):
+                clk += 1
+                ins.append(L.Ev(clk, pairs[m][0]))
+            for e in evs[1:]:
+                e.clock += depth + 5
+            evs[1:1] = ins
+            out.append(Mut("deep", f"{depth} nested {pairs[m][0]}", tr, stream_level=False))
+    return out
+
+
 def all_mutants(r, tier, tabs, res):
-    muts = []
+    muts = deep_nesting_mutants(r, tabs)
     nseeds = 2 if tier == "quick" else 6
     for i in range(nseeds):
         tr = unsorted_seed(r, tabs) if i % 3 == 1 else L.seed_trace(r, tabs, ["jumbo", "one", "models", "two"][i % 4])
